@@ -15,11 +15,22 @@ var _ types.FundraisingHooks = Keeper{}
 
 // SetHooks sets the fundraising hooks.
 func (k *Keeper) SetHooks(fk types.FundraisingHooks) *Keeper {
-	if k.hooks != nil {
+	if k.hooks == nil {
+		k.hooks = &hooksRef{}
+	}
+	if k.hooks.listeners != nil {
 		panic("cannot set fundraising hooks twice")
 	}
-	k.hooks = fk
+	k.hooks.listeners = fk
 	return k
+}
+
+// registeredHooks returns the registered listeners, nil if there are none.
+func (k Keeper) registeredHooks() types.FundraisingHooks {
+	if k.hooks == nil {
+		return nil
+	}
+	return k.hooks.listeners
 }
 
 // BeforeFixedPriceAuctionCreated - call hook if registered
@@ -33,8 +44,8 @@ func (k Keeper) BeforeFixedPriceAuctionCreated(
 	startTime time.Time,
 	endTime time.Time,
 ) error {
-	if k.hooks != nil {
-		if err := k.hooks.BeforeFixedPriceAuctionCreated(
+	if hooks := k.registeredHooks(); hooks != nil {
+		if err := hooks.BeforeFixedPriceAuctionCreated(
 			ctx,
 			auctioneer,
 			startPrice,
@@ -62,8 +73,8 @@ func (k Keeper) AfterFixedPriceAuctionCreated(
 	startTime time.Time,
 	endTime time.Time,
 ) error {
-	if k.hooks != nil {
-		if err := k.hooks.AfterFixedPriceAuctionCreated(
+	if hooks := k.registeredHooks(); hooks != nil {
+		if err := hooks.AfterFixedPriceAuctionCreated(
 			ctx,
 			auctionId,
 			auctioneer,
@@ -94,8 +105,8 @@ func (k Keeper) BeforeBatchAuctionCreated(
 	startTime time.Time,
 	endTime time.Time,
 ) error {
-	if k.hooks != nil {
-		if err := k.hooks.BeforeBatchAuctionCreated(
+	if hooks := k.registeredHooks(); hooks != nil {
+		if err := hooks.BeforeBatchAuctionCreated(
 			ctx,
 			auctioneer,
 			startPrice,
@@ -129,8 +140,8 @@ func (k Keeper) AfterBatchAuctionCreated(
 	startTime time.Time,
 	endTime time.Time,
 ) error {
-	if k.hooks != nil {
-		if err := k.hooks.AfterBatchAuctionCreated(
+	if hooks := k.registeredHooks(); hooks != nil {
+		if err := hooks.AfterBatchAuctionCreated(
 			ctx,
 			auctionId,
 			auctioneer,
@@ -156,8 +167,8 @@ func (k Keeper) BeforeAuctionCanceled(
 	auctionId uint64,
 	auctioneer string,
 ) error {
-	if k.hooks != nil {
-		if err := k.hooks.BeforeAuctionCanceled(ctx, auctionId, auctioneer); err != nil {
+	if hooks := k.registeredHooks(); hooks != nil {
+		if err := hooks.BeforeAuctionCanceled(ctx, auctionId, auctioneer); err != nil {
 			return err
 		}
 	}
@@ -174,8 +185,8 @@ func (k Keeper) BeforeBidPlaced(
 	price math.LegacyDec,
 	coin sdk.Coin,
 ) error {
-	if k.hooks != nil {
-		if err := k.hooks.BeforeBidPlaced(ctx, auctionId, bidId, bidder, bidType, price, coin); err != nil {
+	if hooks := k.registeredHooks(); hooks != nil {
+		if err := hooks.BeforeBidPlaced(ctx, auctionId, bidId, bidder, bidType, price, coin); err != nil {
 			return err
 		}
 	}
@@ -192,8 +203,8 @@ func (k Keeper) BeforeBidModified(
 	price math.LegacyDec,
 	coin sdk.Coin,
 ) error {
-	if k.hooks != nil {
-		if err := k.hooks.BeforeBidModified(ctx, auctionId, bidId, bidder, bidType, price, coin); err != nil {
+	if hooks := k.registeredHooks(); hooks != nil {
+		if err := hooks.BeforeBidModified(ctx, auctionId, bidId, bidder, bidType, price, coin); err != nil {
 			return err
 		}
 	}
@@ -205,8 +216,8 @@ func (k Keeper) BeforeAllowedBiddersAdded(
 	ctx context.Context,
 	allowedBidders []types.AllowedBidder,
 ) error {
-	if k.hooks != nil {
-		if err := k.hooks.BeforeAllowedBiddersAdded(ctx, allowedBidders); err != nil {
+	if hooks := k.registeredHooks(); hooks != nil {
+		if err := hooks.BeforeAllowedBiddersAdded(ctx, allowedBidders); err != nil {
 			return err
 		}
 	}
@@ -220,8 +231,8 @@ func (k Keeper) BeforeAllowedBidderUpdated(
 	bidder sdk.AccAddress,
 	maxBidAmount math.Int,
 ) error {
-	if k.hooks != nil {
-		if err := k.hooks.BeforeAllowedBidderUpdated(ctx, auctionId, bidder, maxBidAmount); err != nil {
+	if hooks := k.registeredHooks(); hooks != nil {
+		if err := hooks.BeforeAllowedBidderUpdated(ctx, auctionId, bidder, maxBidAmount); err != nil {
 			return err
 		}
 	}
@@ -235,8 +246,8 @@ func (k Keeper) BeforeSellingCoinsAllocated(
 	allocationMap map[string]math.Int,
 	refundMap map[string]math.Int,
 ) error {
-	if k.hooks != nil {
-		if err := k.hooks.BeforeSellingCoinsAllocated(ctx, auctionId, allocationMap, refundMap); err != nil {
+	if hooks := k.registeredHooks(); hooks != nil {
+		if err := hooks.BeforeSellingCoinsAllocated(ctx, auctionId, allocationMap, refundMap); err != nil {
 			return err
 		}
 	}
